@@ -506,6 +506,9 @@ fn run_case_gas(out: &mut Out, s: &mut Sess, rng: &mut StdRng, opc: u8, vals: [u
     let x = if plain && !exp.is_null() { json!({"exp": exp}) } else { Value::Null };
     let ok = exec_x(out, s, &sets, raw, x.clone());
     if ok && g.cgas >= 1_000_000 && rng.gen_range(0..100) < 12 {
+        // (an instruction with a memory destination may have overwritten its own operands: the expectation about the first
+        //  execution does not carry over)
+        let x = if matches!(opc, OP_ED19 | OP_EPAR) { x } else { Value::Null };
         let used = g.cgas - s.vm.registers()[RCGAS];
         for c in [used, used.wrapping_sub(1)] {
             if c > used { continue; }
@@ -861,13 +864,13 @@ fn family(o: &Opts, out: &mut Out, run: &mut u64, part: &str) {
     let mut rng = o.rng(salt);
     let reps = |quick: usize, full: usize| o.opt("--reps").and_then(|s| s.parse().ok()).unwrap_or(if thorough { full } else { quick });
     let (cases, per_session) = match part {
-        "hash" => (reps(180, 4000), 90),
-        "sig" => (reps(200, 4000), 100),
-        "ed" => (reps(110, 2500), 55),
-        "ecop" => (reps(150, 3000), 75),
-        "epar" => (reps(60, 800), 30),
-        "block" => (reps(180, 3000), 90),
-        _ => (reps(140, 2400), 70),     // frame: a mixture of all families inside a contract frame
+        "hash" => (reps(180, 2600), 90),
+        "sig" => (reps(200, 2800), 100),
+        "ed" => (reps(110, 1500), 55),
+        "ecop" => (reps(150, 2000), 75),
+        "epar" => (reps(60, 600), 30),
+        "block" => (reps(180, 2000), 90),
+        _ => (reps(140, 1600), 70),     // frame: a mixture of all families inside a contract frame
     };
     let mut done = 0usize;
     let mut sess_no = 0u64;
@@ -883,7 +886,7 @@ fn family(o: &Opts, out: &mut Out, run: &mut u64, part: &str) {
             for _ in 0..3 { let k = rand32(&mut rng); if let Some(q) = vm_mul_g(out, &mut s, &k) { if q != [0u8; 64] { pool.g1.push(q); } } }
             if pool.g1.is_empty() { pool.g1.push(g1_gen()); }
         }
-        let end = (done + per_session).min(cases);
+        let end = (done + if thorough { per_session * 3 } else { per_session }).min(cases);
         while done < end {
             match part {
                 "hash" => hash_case(out, &mut s, &mut rng),
